@@ -475,6 +475,10 @@ func (s *AbsfsNFS) WriteWithContext(ctx context.Context, node *NFSNode, offset i
 	}()
 
 	n, err := f.WriteAt(data, offset)
+	// Whatever the outcome, cached attributes of the file are out of date from here
+	// on: a write that fails, or whose sync fails, may still have stored bytes and
+	// grown the file
+	defer s.attrCache.Invalidate(node.path)
 	if err == nil {
 		// WRITE replies committed=FILE_SYNC: the data must be on stable storage before the reply
 		err = f.Sync()
